@@ -316,6 +316,8 @@ class Block(Entity):
         else:
             shape = 0
         data_frames = self._h5group.open_group("data_frames")
+        if name in data_frames:
+            raise exceptions.DuplicateName("create_data_frame")
 
         if col_dict is None:
             if col_names is not None:
